@@ -54,6 +54,33 @@ def check(rep, tier, rng):
                 if nviol <= 5:
                     rep.violation({"kind": "layout or declaration order changed the generated items", "base_text": base_c["text"], "text": c["text"],
                                    "mode": c["mode"], "ast_equal": ast == base_ast})
+    # (3b) deep dependency chains (6-14 declarations, an opaque at the end), written top-down (every reference is a forward reference),
+    #      bottom-up and shuffled: same items in every order, and the model's fixpoint agrees (T1)
+    nchains = 12 if tier == "quick" else 120
+    ctexts, cgroups = [], []
+    for ci in range(nchains):
+        depth = 6 + rng.below(9)
+        nodes = []
+        for i in range(depth):
+            kind = rng.choice(["struct", "struct", "typedef", "union"])
+            nodes.append((kind, i == depth - 1, [i + 1] if i + 1 < depth else []))
+        items = t3.graph_spec(nodes, rng)
+        for order in (items, list(reversed(items)), rng.shuffle(items)):
+            ctexts.append(specgen.render(order))
+            cgroups.append(ci)
+    cres = t1.run_gen(ctexts)
+    cbase = {}
+    for t, gi, (impl, model) in zip(ctexts, cgroups, cres):
+        ok, det = t1.same_gen(impl, model)
+        if not ok:
+            tie.append(({"text": t}, det))
+        tok = t1.tokens(impl[3:]) if impl.startswith("ok ") else impl.split(" ")[0]
+        if gi not in cbase:
+            cbase[gi] = (t, tok)
+        elif tok != cbase[gi][1]:
+            nviol += 1
+            if nviol <= 5:
+                rep.violation({"kind": "declaration order changed the generated items (deep chain)", "base_text": cbase[gi][0], "text": t, "mode": "chain"})
     # (4) the RFC tokens `unsigned` and `int`: whitespace between them (any amount) and whitespace-delimited comments
     k7 = []
     for ws in [" ", "  ", "\t", "\n", " \n\t ", "\r\n"]:
@@ -69,10 +96,10 @@ def check(rep, tier, rng):
             else:
                 nviol += 1
                 rep.violation({"kind": "layout between `unsigned` and `int` changed the output", "text": t, "observed": out[:80]})
-    rep.cov.update({"evaluations": len(texts) + nproc * len(reqs) + len(rr) + len(k7), "distinct_nontrivial": len(distinct),
-                    "traces_validated_against_impl": len(texts) - len(tie), "processes": nproc,
+    rep.cov.update({"evaluations": len(texts) + nproc * len(reqs) + len(rr) + len(k7) + len(ctexts), "distinct_nontrivial": len(distinct),
+                    "traces_validated_against_impl": len(texts) + len(ctexts) - len(tie), "processes": nproc,
                     "rule": "%d declaration models x %d printings (random whitespace / comment layouts, shuffled declaration order) -> token-identical output and identical Ast; "
-                            "%d fresh processes on the same texts -> byte-identical; 5 repeated/interleaved calls on one Generator; model (T1) on every text. distinct = distinct Asts" % (n, variants, nproc),
+                            "%d fresh processes on the same texts -> byte-identical; 5 repeated/interleaved calls on one Generator; model (T1) on every text; deep reference chains (6-14 declarations ending in an opaque) top-down / bottom-up / shuffled -> same set of items. distinct = distinct Asts" % (n, variants, nproc),
                     "samples": [{"text": c["text"][:300], "mode": c["mode"]} for c in cases[:: max(1, len(cases) // 5)]][:5]})
     if tie and nviol == 0:
         c, det = tie[0]
